@@ -139,7 +139,8 @@ func (ix *IPDB) FindIP(ctx context.Context, isFree func(context.Context, net.IP)
 	}
 
 	p := rand.Perm(1 + int(ix.dynTo-ix.dynFrom))
-	if oip == nil {
+	if oip == nil && n >= ix.dynFrom && n <= ix.dynTo {
+		// Only honour the suggestion if it is part of the dynamic range.
 		p = append([]int{int(n - ix.dynFrom)}, p...)
 	}
 
